@@ -187,6 +187,30 @@ slice_array_folded!(slice_array_folded_len2, 2, 7);
 #[cfg(feature = "verif_experimental")] // 1500 s timeout at 9.6 GB
 slice_array_folded!(slice_array_folded_len3, 3, 5);
 
+/// what a slice yields is a sequence of the sliced kind: the value belongs (by contents) to the static type
+/// the checker computes for the slice expression (C01's clause for this construct, cheap enough to be decided
+/// here; the stored element type of the result is stubbed in this file, so the tag is not compared)
+#[kani::proof]
+#[kani::unwind(7)]
+#[kani::stub(alloc::fmt::format, crate::verif_common::stub_format)]
+pub fn slice_result_inhabits_static_type() {
+    declare();
+    // the static type of the slice is computed from the array value's own type
+    crate::variable::verif_valgate::allow_vals(1 << crate::variable::verif_valgate::V_ARRAY);
+    let (start, stop, step) = bounds(7);
+    // an array whose declared element type is int: the slice has static type [int]
+    let ints = Variable::Array(Arc::new(crate::variable::Array::new_with_type(Type::Int, Arc::from(crate::vv![Variable::Int(kani::any()), Variable::Int(kani::any())]))));
+    let ins = Slicing { lhs: const_ins(ints), start: opt_ins(start), stop: opt_ins(stop), step: opt_ins(step) };
+    let static_type = crate::variable::ReturnType::return_type(&ins);
+    assert!(matches!(static_type, Type::Array(_)));
+    let mut interp = Interpreter::without_stdlib();
+    match ins.exec(&mut interp) {
+        Ok(v) => assert!(in_type(&v, &static_type)),
+        Err(_) => panic!("slicing failed"),
+    }
+    kani::cover!(true);
+}
+
 fn str_case(which: u8) -> (&'static str, usize, [&'static str; 4]) {
     match which {
         0 => ("", 0, ["", "", "", ""]),
